@@ -91,24 +91,28 @@ def ref_eq_container(a, b):
     return _lenient_set(a) == _lenient_set(b)
 
 
-def _lenient_value(vk):
-    if vk[0] in ("bool", "int"):
-        return ("num", float(vk[1]) if abs(vk[1]) < 2 ** 53 else vk[1])
-    if vk[0] == "float":
-        f = float(vk[1])
-        return ("num", f if f != int(f) or abs(f) >= 2 ** 53 else float(int(f)))
-    if vk[0] == "dt":
-        return ("dt",) + tuple(vk[1:])
-    return vk
+def lenient_value(v):
+    """Key of one attribute value under the equality the property allows: Python numeric
+    equality (1 == True == 1.0) and datetime equality (same instant); all else strict."""
+    import datetime as _dt
+
+    if isinstance(v, (bool, int, float)):
+        return ("num", v)
+    if isinstance(v, _dt.datetime):
+        return ("dt", v)
+    return observe.vkey(v)
 
 
-def _lenient_rec(ro):
-    t, i, attrs = ro
-    return (t, i, frozenset((a, _lenient_value(v)) for a, v in attrs))
+def lenient_rec(r):
+    return (
+        observe._uri(r.get_type()),
+        observe._uri(r.identifier),
+        frozenset((observe._uri(a), lenient_value(v)) for a, v in r.attributes),
+    )
 
 
 def _lenient_set(c):
-    return frozenset(_lenient_rec(observe.rec_obs(r)) for r in c.get_records())
+    return frozenset(lenient_rec(r) for r in c.get_records())
 
 
 def ref_eq_document(a, b):
